@@ -51,6 +51,10 @@ three exclusions that are DEFECTS of the code (witnessed below): a `[]` suffix a
 of closing angle brackets (`prod`), an angle-bracket struct closed by the second half of `>>` in
 front of a comma (`prod` for inner positions, `FollowOK` for the follower), and three or more
 closers in a row where `>` is an operator character (`Producible`'s `shortRuns` clause).
+The label lists of `ENUM(..)` / `SET(..)` are `parse_comma_separated` lists of the parser (a trailing
+comma is accepted with `ParserOptions::trailing_commas` on, `Cfg.trailingCommas`): the printed form
+never has one, so the round trip holds under both values of the option; what the option changes on
+other texts is C13's (`Props/C13Types.lean`).
 Partial (by design of the token-level model): payload texts (identifiers, ENUM/SET labels, the
 DateTime64 zone) are tokens here; that printing them yields text lexing back to that token is C06's
 theorem for the payloads satisfying its predicates, and the stream `dtprint` for the rest.
